@@ -155,7 +155,11 @@ def run(rep: Report, tier: str) -> None:
         bound = {x.id for x in ast.walk(val) if isinstance(x, ast.Name) and isinstance(x.ctx, ast.Store)}
         free = {x.id for x in ast.walk(val) if isinstance(x, ast.Name) and isinstance(x.ctx, ast.Load)} - bound
         # data source must be `results` only, restricted by an isinstance(…, Scalar) test
-        ok = "results" in free and free <= {"results", "Scalar", "isinstance", "dict", "Dataset"} and any(
+        rets_ = {r.value.id for r in walk_no_nested(eq.node) if isinstance(r, ast.Return) and isinstance(r.value, ast.Name)}
+        if len(rets_) != 1:
+            raise AnalysisError("execute_queries: the returned results dict is not a single local")
+        res_name = next(iter(rets_))
+        ok = res_name in free and free <= {res_name, "Scalar", "isinstance", "dict", "Dataset"} and any(
             isinstance(x, ast.Call) and _callee_name(x) == "isinstance" and src(x.args[1]).endswith("Scalar") for x in ast.walk(val))
     if not ok:
         rep.add(Finding("R14.3", "R14.3/scalar-source", eq.module.rel, c.lineno, eq.qualname,
